@@ -95,8 +95,14 @@ class Addr:
 
     def _expire(self):
         """
-        callback done via callLater
+        callback done via callLater, or called directly when Tor
+        reports an error for this name
         """
+        if self.expiry is not None and self.expiry.active():
+            # dropped before the scheduled expiry: that timer must not
+            # fire later on (the name may have been re-added by then)
+            self.expiry.cancel()
+        self.expiry = None
         del self.map.addr[self.name]
         self._forget_address()
         self.map.notify("addrmap_expired", *[self.name], **{})
